@@ -154,6 +154,7 @@ structure Srv where
   openStreams : Int := 0
   ring : List Nat := []            -- recently closed ids, oldest first
   resetByUs : List Nat := []       -- ids of streams this side reset (bounded like `ring`)
+  lastRefused : Nat := 0           -- highest id of a refused stream: used up although it never becomes lastID
   clientWindow : Int := Gen.c_defaultWindowSize
   curInitWin : Int := Gen.c_defaultWindowSize
   recvWin : Int := Gen.c_serverMaxWindow
